@@ -38,11 +38,20 @@ class HX(Exception):
     pass
 
 
+class HM(HX, HB):
+    """multiple inheritance: HA is reachable through the second base only"""
+
+
+# a different class that is also *named* HB but derives from HX
+HBfake = type('HB', (HX,), {'__module__': __name__})
+
+
 class PullBudget(BaseException):
     """A supplier was pulled beyond its budget (unbounded consumer)."""
 
 
-HARNESS_EXC = {'HA': HA, 'HB': HB, 'HC': HC, 'HX': HX}
+HARNESS_EXC = {'HA': HA, 'HB': HB, 'HC': HC, 'HX': HX, 'HM': HM,
+               'HB~': HBfake}
 
 
 def exc_class(name):
